@@ -374,6 +374,59 @@ Qed.
 Lemma party_addrs_incl_all : forall ps a, In a (party_addrs ps) -> In a (all_addrs ps).
 Proof. intros ps a H. now apply party_addrs_In. Qed.
 
+(** ** MsgWriteScope with the value-owner fields: who the used signers stand for *)
+Lemma used_parties_stand : forall e req avail roles signers ds s,
+  validate_all_required_parties_signed e req avail roles signers = Some ds ->
+  In s (used_signers ds) -> stands_for_party e req avail s.
+Proof.
+  intros e req avail roles signers ds s HV Hs.
+  pose proof (all_required_parties_signed_final _ _ _ _ _ _ HV) as HF.
+  apply used_signers_In in Hs as (d & Hd & Hsd).
+  destruct HF as (_ & Hk & Hsg & _).
+  destruct (Hsg d s Hd Hsd) as [_ Hor].
+  assert (Hkin : In (key d) (map pkey (considered req avail))).
+  { apply considered_keys. apply Hk. now apply in_map. }
+  apply in_map_iff in Hkin as (p & Hkp & Hpin).
+  exists p. split; auto.
+  assert (Hpa : p_addr p = d_addr d) by (unfold key, pkey in Hkp; congruence).
+  rewrite Hpa. destruct Hor as [->|Hg]; auto.
+Qed.
+
+Lemma stands_for_with_vo : forall e vr req avail s,
+  stands_for_party e req avail s \/ (exists a, In a vr /\ (a = s \/ granted e a s = true)) ->
+  stands_for_party e (addr_parties vr ++ req) avail s.
+Proof.
+  intros e vr req avail s [(p & Hp & Hor)|(a & Ha & Hor)].
+  - exists p. split; auto. unfold considered in *. rewrite filter_app.
+    apply in_app_or in Hp as [Hp|Hp]; apply in_or_app; [now left|right]. apply in_or_app. now right.
+  - exists {| p_addr := a; p_role := role_unspecified; p_opt := false |}. split; [|exact Hor].
+    unfold considered. rewrite filter_app. apply in_or_app. right. apply in_or_app. left.
+    apply filter_In. split; [|reflexivity]. apply addr_parties_In. eauto.
+Qed.
+
+Lemma write_scope_full_contract_rule : forall e ex pr roles signers,
+  outer_accept e (OWriteScopeFull ex pr roles) signers = true ->
+  contract_rule e (doc_used (stands_for_party e) (OWriteScopeFull ex pr roles)) signers.
+Proof.
+  intros e ex pr roles signers H. rewrite write_scope_full_accept in H.
+  destruct (wsf_inv _ _ _ _ _ H) as (u1 & u2 & HV & Hsc & Hor).
+  destruct (vo_check_sound _ _ _ _ _ HV) as [_ Hu2].
+  apply sc_loop_spec in Hsc. eapply contract_rule_mono; [|exact Hsc].
+  intros s _ Hs. unfold doc_used. cbn [doc_parties].
+  apply in_app_or in Hs.
+  destruct Hor as [[Hov ->]|(Hov & _ & _ & Hor)]; rewrite Hov.
+  - destruct Hs as [Hs|[]]. apply stands_for_addr_parties. exact (Hu2 s Hs).
+  - destruct Hor as [(Hru & ds & HVP & ->)|[(Hru & Hn & ->)|(Hru & Hn & ds & HVS & ->)]]; rewrite Hru.
+    + apply stands_for_with_vo. destruct Hs as [Hs|Hs]; [right; exact (Hu2 s Hs)|left].
+      eapply used_parties_stand; eauto.
+    + rewrite Hn. destruct Hs as [Hs|[]]. apply stands_for_addr_parties. exact (Hu2 s Hs).
+    + rewrite Hn. apply stands_for_addr_parties. destruct Hs as [Hs|Hs].
+      * destruct (Hu2 s Hs) as (a & Ha & Hor). exists a. split; auto. apply in_or_app. now left.
+      * destruct (without_details _ _ _ _ HVS) as (_ & H2 & _).
+        destruct (H2 s Hs) as (_ & a & Ha & Hor). exists a. split; auto.
+        apply in_or_app. right. now apply party_addrs_incl_all.
+Qed.
+
 (** ** The position rule per endpoint *)
 Theorem outer_contract_rule : forall e op signers,
   outer_accept e op signers = true -> enforces_contract_rule op = true ->
@@ -388,7 +441,9 @@ Proof.
     |rollup owners session old roles
     |rollup owners roles
     |rollup owners roles
-    |vos proposed]; cbn [outer_accept doc_parties] in *.
+    |vos proposed
+    |ex pr roles]; try (now apply write_scope_full_contract_rule);
+    cbn [outer_accept doc_parties] in *.
   - apply andb_prop in H as [_ H]. now apply contract_rule_false_b.
   - apply andb_prop in H as [_ H]. destruct ex_rollup; cbn [negb] in H.
     + change (signed_then_contracts e existing existing roles signers = true) in H.
